@@ -78,6 +78,12 @@ func PutBlockDesc(c *wire.Case, b *pbfgen.Block) error {
 					putInfo(c, n.Info)
 					putTags(c, n.Tags)
 				}
+			case it.Node != nil:
+				n := it.Node
+				c.Int(4).Int(n.ID).Int(n.Lat).Int(n.Lon).Bool(n.HasInfo)
+				putFlags(c, n.Fields)
+				putInfo(c, n.Info)
+				putTags(c, n.Tags)
 			case it.Way != nil:
 				w := it.Way
 				if len(w.Trim) > 0 {
